@@ -520,6 +520,11 @@ func (x *dbExec) step(db *simpledb.DB, s dbStep, g int) (*simpledb.DB, error) {
 			err = fmt.Errorf("file has %d bytes", len(b))
 		}
 		rec.emit(M{"t": "note", "name": fmt.Sprintf("damage armed: %s/%s byte -%d: %v", s.Match, s.Which, s.Pos, err)})
+	case "touch":
+		// the application keeps a file of its own in the database directory (say a lock file)
+		if err := os.WriteFile(filepath.Join(x.dir, "LOCK"), []byte("pid 4711\n"), 0o600); err != nil {
+			rec.emit(M{"t": "note", "name": "touch failed: " + err.Error()})
+		}
 	case "sleep":
 		time.Sleep(time.Duration(s.Us) * time.Microsecond)
 	case "par":
